@@ -359,6 +359,15 @@ def evaluate(spec):
         except (ValueError, TypeError, KeyError, IndexError, AttributeError, OverflowError) as e:
             return {'skip': type(e).__name__}
         metrics = list(reg.collect())
+        # outside "expressible through the public API": a sample name that Metric() itself rejects under the active
+        # validation can only come from Metric.add_sample, which validates nothing (the parser rebuilds such a sample
+        # as a family of its own through Metric() and must raise ValueError)
+        for m in metrics:
+            for smp in m.samples:
+                try:
+                    V._validate_metric_name(smp.name)
+                except ValueError:
+                    return {'skip': 'sample-name-rejected-by-Metric'}
         try:
             text = exposition.generate_latest(reg).decode('utf-8')
         except Exception as e:  # noqa
